@@ -102,7 +102,7 @@ def judge_transition(cname, node, result, change, error, nb=None):
 
 
 RULE_BATTERY = ["4 + 8", "4x + 8y", "4x + 8x", "6 + 9", "6x + 9x", "9 + 15", "-8^0.5", "(-8)^0.5 + 1", "2^-3 + x", "x * x", "2x * 3x^2", "7 - 3",
-                "x / -y", "(2 + 3) * x", "2x + 3 = 7", "3x = 9", "(x + 1) + 2", "2 * 3 * x", "4x^0 + x^0", "0.5x + 1.5x"]
+                "x / -y", "(2 + 3) * x", "2x + 3 = 7", "3x = 9", "(x + 1) + 2", "2 * 3 * x", "4x^0 + x^0", "0.5x + 1.5x", "7x + 3x", "12x + 18x", "49 + 121"]
 
 
 def _rule_battery():
@@ -127,7 +127,7 @@ def _rule_battery():
                     continue
                 try:
                     res, _ = RW.step(tree, rule, i)
-                    out.append((t, cname, i, True, SG.show(SG.sig(RW.get_root(res)))))
+                    out.append((t, cname, i, True, SG.show(SG.sig(RW.get_root(res))), str(RW.get_root(res))))
                 except Exception as e:  # noqa
                     out.append((t, cname, i, True, "apply-raises:" + type(e).__name__))
     return out
